@@ -511,8 +511,55 @@ def _run_dpq(case):
                     curv = abs(float(mpmath.diff(lambda t: ref_pdf(fam, p, t), x, 2))) * h * h   # truncation bound of the central difference
                     if abs(fdiff - dv[1]) > 1e-4 * max(abs(dv[1]), 1e-3) + 10 * curv + 1e-12 / h:
                         violation("p" + fam, "dp/dx!=d", "(p%s(x+h)-p%s(x-h))/2h = %r but d%s(x) = %r at x=%r (%s)" % (fam, fam, fdiff, fam, dv[1], x, p))
+    # vectorised use, the same argument objects handed in twice: values must be the scalar values (which the closed
+    # forms above have judged), and no call may write into the arrays it was given
+    if not viol:
+        _vector_reuse(distn, fam, p, case, pos, kw, violation, tags)
     return {"nontrivial": bool(nontrivial and all_numbers), "mismatches": mism, "violations": viol, "tags": tags,
             "sample": {"family": fam, "params": p, "xs": case["xs"][:2], "us": case["us"][:2]}}
+
+
+def _vector_reuse(distn, fam, p, case, pos, kw, violation, tags):
+    n = len(case["xs"])
+    for kind in "dpq":
+        f = getattr(distn, kind + fam, None)
+        if f is None:
+            continue
+        firsts = case["us"] if kind == "q" else case["xs"]
+        if not firsts:
+            continue
+        scal = [_real_call(f, v, *pos, **kw) for v in firsts]
+        if any(r[0] != "value" for r in scal):
+            continue
+        first_arr = np.array(firsts, dtype=(float if (kind == "q" or fam not in DISCRETE) else int))
+        par_arrs = [np.full(len(firsts), v, dtype=(int if isinstance(v, int) and not isinstance(v, bool) else float)) for v in pos]
+        kw_arrs = {k: (None if v is None else np.full(len(firsts), float(v))) for k, v in kw.items()}
+        keep = [first_arr.copy()] + [a.copy() for a in par_arrs] + [None if a is None else a.copy() for a in kw_arrs.values()]
+        outs = []
+        for rep in range(2):
+            try:
+                with np.errstate(all="ignore"):
+                    outs.append(np.asarray(f(first_arr, *par_arrs, **kw_arrs), float).ravel())
+            except Exception as exc:
+                outs.append(exc)
+        now = [first_arr] + par_arrs + list(kw_arrs.values())
+        names = ["first argument"] + ["parameter %d" % (i + 1) for i in range(len(par_arrs))] + list(kw_arrs)
+        for nm, a, b in zip(names, keep, now):
+            if a is not None and not np.array_equal(a, b, equal_nan=True):
+                violation(kind + fam, "mutates-argument", "%s%s wrote into the array passed as %s: %s -> %s (%s)" % (kind, fam, nm, a.tolist(), b.tolist(), p))
+        if isinstance(outs[0], Exception):
+            tags.append("vector:unsupported:" + kind + fam)      # vectorised calls are not promised; not judged
+            if not isinstance(outs[1], Exception):
+                violation(kind + fam, "first-vector-call-raises-only", "%s%s raised on the first vectorised call only: %r" % (kind, fam, outs[0]))
+            continue
+        tags.append("vector")
+        exp = np.array([r[1] for r in scal])
+        for rep, o in enumerate(outs):
+            if isinstance(o, Exception):
+                violation(kind + fam, "repeat-call-raises", "%s%s raised %r when called a second time with the same arrays (%s)" % (kind, fam, o, p))
+            elif o.shape != exp.shape or not all(_close(g, e, 1e-9, 1e-12) or (math.isnan(g) and math.isnan(e)) for g, e in zip(o, exp)):
+                violation(kind + fam, "vector-differs-from-scalar" if rep == 0 else "repeat-call-differs",
+                          "%s%s(array, ...) call %d = %s but element by element the scalar calls give %s (%s)" % (kind, fam, rep + 1, o.tolist(), exp.tolist(), p))
 
 
 # ------------------------------------------------------------------------------------------ generators
